@@ -170,6 +170,60 @@ func one(k kase) *fail {
 		if want := "A=[aa base] B=[base bb] errors=[]"; got != want {
 			return &fail{k, want, got}
 		}
+	case "tagline":
+		// the entry file carries yaegi:tags comment lines (k.Src = the lines, '|' separated); the interpreter was created with
+		// k.Tags; a package loaded AFTERWARDS must be selected file by file as go/build selects with the union of both
+		var buf bytes.Buffer
+		file := func(hd, id string) string {
+			return hd + "package main\n\nimport . \"verif/engine/twin/h\"\n\nfunc init() { Show(\"" + id + "\") }\n"
+		}
+		files := map[string]string{
+			"m.go": "package main\n\nfunc main() {}\n", "fa.go": file("//go:build a\n\n", "fa.go"), "fb.go": file("//go:build b\n\n", "fb.go"),
+			"fc.go": file("// +build c\n\n", "fc.go"), "fab.go": file("//go:build a && b\n\n", "fab.go"), "fnotb.go": file("//go:build !b\n\n", "fnotb.go"),
+			"fbc.go": file("// +build b,c\n\n", "fbc.go"), "fnota.go": file("// +build !a\n\n", "fnota.go"), "faorc.go": file("//go:build a || c\n\n", "faorc.go"),
+		}
+		hdr := ""
+		union := append([]string{}, k.Tags...)
+		for _, line := range strings.Split(k.Src, "|") {
+			hdr += "// yaegi:tags " + line + "\n"
+			union = append(union, strings.Fields(line)...)
+		}
+		mfs := fstest.MapFS{"gp/src/t/t.go": &fstest.MapFile{Data: []byte(hdr + "\npackage main\n\nfunc main() {}\n")}}
+		var names []string
+		for n, src := range files {
+			mfs["gp/src/u/"+n] = &fstest.MapFile{Data: []byte(src)}
+			names = append(names, n)
+		}
+		sort.Strings(names)
+		i := newInterp(append([]string{}, k.Tags...), mfs, &buf)
+		ctx := i.VerifContext()
+		ctx.BuildTags = union
+		var want []string
+		for _, n := range names {
+			ok, err := modelMatch(ctx, n, files[n])
+			if err != nil {
+				return &fail{k, "MODEL-ERROR " + err.Error(), ""}
+			}
+			if ok && n != "m.go" {
+				want = append(want, n)
+			}
+		}
+		var errs []string
+		for _, pth := range []string{"./gp/src/t", "./gp/src/u"} {
+			if _, err := i.EvalPath(pth); err != nil {
+				errs = append(errs, strings.SplitN(err.Error(), "\n", 2)[0])
+			}
+		}
+		got := strings.Fields(buf.String())
+		sort.Strings(got)
+		w, g := strings.Join(want, " "), strings.Join(got, " ")
+		par.Distinct("tagline_answers", w)
+		if len(errs) > 0 {
+			g += " errors: " + strings.Join(errs, "; ")
+		}
+		if w != g {
+			return &fail{k, w, g}
+		}
 	case "e2e":
 		var buf bytes.Buffer
 		mfs := fstest.MapFS{}
@@ -426,6 +480,32 @@ func main() {
 	ks = append(ks, headerCases(true)...)
 	nHeaders := len(ks) - nNames
 	ks = append(ks, e2eCases(ctx.GOOS, ctx.GOARCH)...)
+	// yaegi:tags lines of 1..3 tags over {a, b, c} (every sequence, repetitions included), one or two lines, x the tags the
+	// interpreter was created with: the tags in force afterwards are the union
+	{
+		alpha := []string{"a", "b", "c"}
+		var lines []string
+		for _, x := range alpha {
+			lines = append(lines, x)
+			for _, y := range alpha {
+				lines = append(lines, x+" "+y)
+				for _, z := range alpha {
+					lines = append(lines, x+" "+y+" "+z)
+				}
+			}
+		}
+		srcs := append([]string{}, lines...)
+		for _, l1 := range []string{"a", "b", "a b", "c a"} {
+			for _, l2 := range []string{"a", "b c", "b a", "c"} {
+				srcs = append(srcs, l1+"|"+l2)
+			}
+		}
+		for _, t0 := range [][]string{nil, {"a"}, {"b"}, {"c"}, {"a", "b"}, {"b", "c"}} {
+			for _, src := range srcs {
+				ks = append(ks, kase{Kind: "tagline", Src: src, Tags: t0, Class: fmt.Sprintf("yaegi:tags lines %q with BuildTags %v", src, t0)})
+			}
+		}
+	}
 	ks = append(ks, kase{Kind: "sharedtags", Class: "two interpreters created from one BuildTags slice, each adding a yaegi:tags tag"})
 	for _, hd := range []string{"", "//go:build " + ctx.GOOS + "\n\n", "//go:build !" + ctx.GOOS + "\n\n", "//go:build ignore\n\n", "// +build windows,!" + ctx.GOOS + "\n\n", "// +build " + ctx.GOOS + "\n\n", "//go:build a\n\n", "//go:build go1.99\n\n"} {
 		for _, mode := range []string{"eval", "compile", "evalpath"} {
@@ -464,7 +544,7 @@ func main() {
 	r.Set("headers_without_model_answer", res.Counts["model_rejects_header"])
 	r.Set("distinct_nontrivial", len(res.Sets["name_answers"])+len(res.Sets["header_answers"])+len(res.Sets["e2e_answers"]))
 	r.Set("exhaustive", true)
-	r.Set("rule", "names: every word of go/build's OS and architecture lists + unix + unknown words in the last one and two _ positions (and with a third leading word), with and without _test, _/. prefixes, loading with and without tests; headers: all boolean expressions of depth <= 2 over literals of 15 atoms in //go:build and // +build syntax (or / and / two lines), both syntaxes together, yaegi:tags, 8 placements before and 6 after the package clause, x tag sets over {a,b}; e2e: packages on a MapFS loaded by EvalPath; entry: the constrained source as the entry itself through Eval, Compile + Execute and EvalPath on the file (8 headers x 2 tag sets); two interpreters created from one Options.BuildTags slice, each adding its own yaegi:tags tag. distinct_nontrivial = distinct model answers observed per dimension (true/false, file sets)")
+	r.Set("rule", "yaegi:tags lines: every sequence of 1-3 tags over {a,b,c} (repetitions included) and 16 two-line forms x 6 initial BuildTags sets, a package of 8 constrained files loaded afterwards and compared file by file with go/build under the union of the tags; names: every word of go/build's OS and architecture lists + unix + unknown words in the last one and two _ positions (and with a third leading word), with and without _test, _/. prefixes, loading with and without tests; headers: all boolean expressions of depth <= 2 over literals of 15 atoms in //go:build and // +build syntax (or / and / two lines), both syntaxes together, yaegi:tags, 8 placements before and 6 after the package clause, x tag sets over {a,b}; e2e: packages on a MapFS loaded by EvalPath; entry: the constrained source as the entry itself through Eval, Compile + Execute and EvalPath on the file (8 headers x 2 tag sets); two interpreters created from one Options.BuildTags slice, each adding its own yaegi:tags tag. distinct_nontrivial = distinct model answers observed per dimension (true/false, file sets)")
 	r.Assumptions = []string{"go/build.Context.MatchFile on a copy of the interpreter's own build context is the reference", "headers that go/build itself reports as malformed have no model answer and are skipped (counted)"}
 	for _, i := range []int{3, nNames + 5, len(ks) - 1} {
 		r.Sample(ks[i])
